@@ -3,122 +3,7 @@
    done by extracted code (module Model). *)
 open Model
 
-(* ------------------------------------------------------------------ numbers *)
-let rec nat_of_int i = if i <= 0 then O else S (nat_of_int (i - 1))
-let rec int_of_nat = function O -> 0 | S k -> 1 + int_of_nat k
-
-let n_of_bits (bits : bool list) : n =
-  (* bits: least significant first *)
-  let rec build = function
-    | [] -> None
-    | b :: r -> (match build r with
-                 | None -> if b then Some XH else None
-                 | Some p -> Some (if b then XI p else XO p)) in
-  match build bits with None -> N0 | Some p -> Npos p
-
-let hexdigit c =
-  match c with
-  | '0' .. '9' -> Char.code c - 48
-  | 'a' .. 'f' -> Char.code c - 87
-  | 'A' .. 'F' -> Char.code c - 55
-  | _ -> failwith ("bad hex digit " ^ String.make 1 c)
-
-let n_of_hex (s : string) : n =
-  let bits = ref [] in
-  String.iter (fun c ->
-      let d = hexdigit c in
-      (* most significant digit first: prepend its bits so that the list ends up LSB first *)
-      bits := ((d land 1) <> 0) :: ((d land 2) <> 0) :: ((d land 4) <> 0) :: ((d land 8) <> 0) :: !bits) s;
-  n_of_bits !bits
-
-let rec bits_of_pos = function
-  | XH -> [true]
-  | XO p -> false :: bits_of_pos p
-  | XI p -> true :: bits_of_pos p
-
-let hex_of_n (x : n) : string =
-  match x with
-  | N0 -> "0"
-  | Npos p ->
-     let bits = Array.of_list (bits_of_pos p) in
-     let len = Array.length bits in
-     let nd = (len + 3) / 4 in
-     let b = Bytes.create nd in
-     for k = 0 to nd - 1 do
-       let d = ref 0 in
-       for j = 0 to 3 do
-         let idx = 4 * k + j in
-         if idx < len && bits.(idx) then d := !d lor (1 lsl j)
-       done;
-       Bytes.set b (nd - 1 - k) "0123456789abcdef".[!d]
-     done;
-     Bytes.to_string b
-
-let rec int_of_pos = function XH -> 1 | XO p -> 2 * int_of_pos p | XI p -> 2 * int_of_pos p + 1
-let int_of_n = function N0 -> 0 | Npos p -> int_of_pos p
-let rec pos_of_int i = if i = 1 then XH else if i land 1 = 0 then XO (pos_of_int (i lsr 1)) else XI (pos_of_int (i lsr 1))
-let n_of_int i = if i = 0 then N0 else Npos (pos_of_int i)
-
-(* ------------------------------------------------------------------ value syntax *)
-let split c s = if s = "-" || s = "" then [] else String.split_on_char c s
-let join c l = if l = [] then "-" else String.concat c l
-
-let p_nat s = nat_of_int (int_of_string s)
-let p_n s = n_of_hex s
-let p_bool s = (s = "1")
-let p_nlist s = List.map n_of_hex (split ',' s)
-let p_bytes s =
-  if s = "-" then [] else
-    List.init (String.length s / 2) (fun i -> n_of_int (16 * hexdigit s.[2 * i] + hexdigit s.[2 * i + 1]))
-let p_lut s =
-  match String.index_opt s ':' with
-  | None -> failwith ("bad lut " ^ s)
-  | Some i ->
-     let n = int_of_string (String.sub s 0 i) in
-     let ws = String.sub s (i + 1) (String.length s - i - 1) in
-     { nv = nat_of_int n; tbl = List.map n_of_hex (split '.' ws) }
-let p_lutlist s = List.map p_lut (split ';' s)
-let p_cube s =
-  match String.split_on_char '/' s with
-  | [p; q] -> { cpos = n_of_hex p; cneg = n_of_hex q }
-  | _ -> failwith ("bad cube " ^ s)
-let p_cubes s = List.map p_cube (split ';' s)
-let p_ecube s =
-  match String.split_on_char '/' s with
-  | [v; x] -> { evars = n_of_hex v; exnor = (x = "1") }
-  | _ -> failwith ("bad ecube " ^ s)
-let p_ecubes s = List.map p_ecube (split ';' s)
-let p_form p s =
-  match String.index_opt s ':' with
-  | None -> failwith ("bad form " ^ s)
-  | Some i -> (nat_of_int (int_of_string (String.sub s 0 i)), p (String.sub s (i + 1) (String.length s - i - 1)))
-let p_sop s = let (n, c) = p_form p_cubes s in { snv = n; scubes = c }
-let p_esop s = let (n, c) = p_form p_cubes s in { env = n; ecubes = c }
-let p_soes s = let (n, c) = p_form p_ecubes s in { onv = n; ocubes = c }
-
-let s_nat k = string_of_int (int_of_nat k)
-let s_n = hex_of_n
-let s_bool b = if b then "1" else "0"
-let s_nlist l = join "," (List.map hex_of_n l)
-let s_bytes l = if l = [] then "-" else String.concat "" (List.map (fun b -> Printf.sprintf "%02x" (int_of_n b)) l)
-let s_lut l = s_nat l.nv ^ ":" ^ join "." (List.map hex_of_n l.tbl)
-let show_cmp = function Lt -> "lt" | Eq -> "eq" | Gt -> "gt"
-let s_cube c = hex_of_n c.cpos ^ "/" ^ hex_of_n c.cneg
-let s_cubes l = join ";" (List.map s_cube l)
-let s_ecube e = hex_of_n e.evars ^ "/" ^ s_bool e.exnor
-let s_ecubes l = join ";" (List.map s_ecube l)
-let s_sop s = s_nat s.snv ^ ":" ^ s_cubes s.scubes
-let s_esop s = s_nat s.env ^ ":" ^ s_cubes s.ecubes
-let s_soes s = s_nat s.onv ^ ":" ^ s_ecubes s.ocubes
-let s_decomp = function
-  | DNone -> "None" | DIndependent -> "Independent" | DIdentity -> "Identity" | DNegation -> "Negation"
-  | DAnd -> "And" | DOr -> "Or" | DLe -> "Le" | DLt -> "Lt" | DXor -> "Xor"
-let p_decomp = function
-  | "None" -> DNone | "Independent" -> DIndependent | "Identity" -> DIdentity | "Negation" -> DNegation
-  | "And" -> DAnd | "Or" -> DOr | "Le" -> DLe | "Lt" -> DLt | "Xor" -> DXor | s -> failwith ("bad decomp " ^ s)
-
-let rmap f = function Ok a -> Ok (f a) | PanicAlways -> PanicAlways | PanicDebug -> PanicDebug
-let ok x = Ok x
+open Values
 
 (* ------------------------------------------------------------------ dispatch *)
 (* ty is "D" (dynamic Lut) or "S" (LutN) *)
@@ -324,12 +209,40 @@ let run (op : string) (ty : string) (a : string array) : string res =
   | "o.or" -> rmap s_soes (soes_or (p_soes a.(0)) (p_soes a.(1)))
   | "o.to_lut" -> let s = p_soes a.(0) in ok (s_lut { nv = s.onv; tbl = soes_to_lut s })
   | "o.display" -> ok (s_bytes (soes_display (p_soes a.(0))))
+  (* translator cross-check: the compiled constants, as seen through the hook, against Gen/Tables.v *)
+  | "const" ->
+     (match op with
+      | "const.VAR_MASK" -> ok (s_nlist vAR_MASK)
+      | "const.NUM_VARS_MASK" -> ok (s_nlist nUM_VARS_MASK)
+      | "const.COUNT_MASKS" -> ok (s_nlist cOUNT_MASKS)
+      | "const.SWAP_INPUT_MASKS" -> ok (String.concat "|" (List.map s_nlist sWAP_INPUT_MASKS))
+      | _ -> raise Not_found)
   | _ -> raise Not_found
+
+(* ops whose result is an observation of an external oracle: there is nothing to replay, only to check *)
+let observe (op : string) (_ty : string) (a : string array) (expected : string) : string option =
+  let base = match String.index_opt op '.' with Some i when i > 1 -> String.sub op 0 i | _ -> op in
+  match base with
+  | "random" ->
+     if expected = "panic" then Some "panic" else
+     let l = p_lut expected in
+     let n = p_nat a.(0) in
+     Some (if int_of_nat l.nv = int_of_nat n && wfb n l.tbl then expected else "malformed")
+  | _ -> None
+
+(* ------------------------------------------------------------------ specification-level checkers
+   [spec_check op ty args expected] = Some true  : the implementation's result satisfies the property's statement
+                                      Some false : it violates it (a concrete failing input)
+                                      None       : no checker for this operation *)
+let spec_check (_prop : string) (op : string) (ty : string) (a : string array) (expected : string) : bool option =
+  Speccheck.check op ty a expected
 
 (* ------------------------------------------------------------------ main loop *)
 let () =
-  let profile = ref "dev" and file = ref "" and tables = ref false in
+  let profile = ref "dev" and file = ref "" and tables = ref false and speccheck = ref "mismatch" and prop = ref "" in
   Arg.parse [ ("--profile", Arg.Set_string profile, "dev|release");
+              ("--speccheck", Arg.Set_string speccheck, "mismatch|all|none : which lines go through the spec checkers");
+              ("--property", Arg.Set_string prop, "Cxx");
               ("--tables", Arg.Set tables, "print the constant tables of the model as JSON and exit") ]
     (fun f -> file := f) "driver [--profile dev|release] transcript";
   if !tables then begin
@@ -342,6 +255,12 @@ let () =
   end;
   let ic = if !file = "" || !file = "-" then stdin else open_in !file in
   let lines = ref 0 and mism = ref 0 and debugonly = ref 0 and unknown = ref 0 and errors = ref 0 in
+  let specfail = ref 0 and specrun = ref 0 in
+  let do_spec id op ty args expected line =
+    match (try spec_check !prop op ty args expected with _ -> None) with
+    | Some false -> incr specrun; incr specfail; Printf.printf "SPECFAIL\t%s\t%s\t%s\n" id "the implementation's result violates the property's statement (extracted checker)" line
+    | Some true -> incr specrun
+    | None -> () in
   let counts = Hashtbl.create 64 in
   (try
      while true do
@@ -358,7 +277,10 @@ let () =
            let args = Array.sub fields 3 (nf - 5) in
            let expected = fields.(nf - 1) in
            Hashtbl.replace counts op (1 + (try Hashtbl.find counts op with Not_found -> 0));
-           match (try Some (run op ty args) with
+           match (match observe op ty args expected with
+                  | Some r -> Some (Ok r)
+                  | None ->
+                  try Some (run op ty args) with
                   | Not_found -> incr unknown; Printf.printf "UNKNOWNOP\t%s\t%s\n" id op; None
                   | Failure m | Invalid_argument m -> incr errors; Printf.printf "PARSEERROR\t%s\t%s\t%s\n" id op m; None) with
            | None -> ()
@@ -372,11 +294,13 @@ let () =
                     incr mism; Printf.printf "MISMATCH\t%s\t%s\t%s\n" id "panic(debug-only)" line end
                | _ ->
                   if shown <> expected then begin
-                    incr mism; Printf.printf "MISMATCH\t%s\t%s\t%s\n" id shown line end)
+                    incr mism; Printf.printf "MISMATCH\t%s\t%s\t%s\n" id shown line;
+                    if !speccheck <> "none" then do_spec id op ty args expected line end
+                  else if !speccheck = "all" then do_spec id op ty args expected line)
          end
        end
      done
    with End_of_file -> ());
   Hashtbl.iter (fun op c -> Printf.printf "OPCOUNT\t%s\t%d\n" op c) counts;
-  Printf.printf "SUMMARY\tlines=%d\tmismatches=%d\tdebugonly=%d\tunknown=%d\terrors=%d\n"
-    !lines !mism !debugonly !unknown !errors
+  Printf.printf "SUMMARY\tlines=%d\tmismatches=%d\tdebugonly=%d\tunknown=%d\terrors=%d\tspecrun=%d\tspecfail=%d\n"
+    !lines !mism !debugonly !unknown !errors !specrun !specfail
